@@ -141,6 +141,11 @@ type ConnSpec struct {
 	// ServerKeyUpdate (reference server, TLS 1.3): asked before the n-th echo write; send => the
 	// server sends a KeyUpdate first, request => with update_requested.
 	ServerKeyUpdate func(n int) (send, request bool)
+	// ExtraHandshakers: that many further tasks call Handshake on the same UConn, each after a
+	// drawn number of scheduler steps once the client task is about to call Handshake itself
+	// (default client only). Their results go to ConnOutcome.ExtraErrs.
+	ExtraHandshakers int
+	ExtraDelay       []int
 }
 
 // ConnOutcome is everything observed about one connection.
@@ -161,6 +166,13 @@ type ConnOutcome struct {
 	CIOErr   error
 	SIOErr   error
 	HelloRaw []byte // HandshakeState.Hello.Raw after the handshake
+	// HelloRawEnd is Hello.Raw once every task of the connection has finished (after any further
+	// Handshake callers, the echo and Close).
+	HelloRawEnd []byte
+	ExtraErrs   []error
+	ExtraRan    []bool
+	prepDone    bool
+	clientGone  bool
 	RawAtHS  []byte // HandshakeState.Hello.Raw as the first client write was performed
 	CPanic   any
 	SPanic   any
@@ -302,6 +314,7 @@ func defaultClient(o *ConnOutcome, conn net.Conn) {
 	if sp.Spec != nil {
 		if err := u.ApplyPreset(sp.Spec); err != nil {
 			o.BuildErr = err
+			o.clientGone = true
 			conn.Close()
 			return
 		}
@@ -309,15 +322,18 @@ func defaultClient(o *ConnOutcome, conn net.Conn) {
 	if sp.Prep != nil {
 		if err := sp.Prep(u); err != nil {
 			o.BuildErr = err
+			o.clientGone = true
 			conn.Close()
 			return
 		}
 	}
+	o.prepDone = true
 	o.CErr = u.Handshake()
 	if u.HandshakeState.Hello != nil {
 		o.HelloRaw = append([]byte(nil), u.HandshakeState.Hello.Raw...)
 	}
 	if o.CErr != nil {
+		o.clientGone = true
 		u.Close()
 		return
 	}
@@ -400,8 +416,29 @@ func RunConn(c *Ctx, w *simrt.World, sp *ConnSpec) *ConnOutcome {
 		}()
 		sf(o, l.B)
 	})
+	o.ExtraErrs = make([]error, sp.ExtraHandshakers)
+	o.ExtraRan = make([]bool, sp.ExtraHandshakers)
+	for i := 0; i < sp.ExtraHandshakers; i++ {
+		i := i
+		w.Go(fmt.Sprintf("%s.hs%d", sp.Name, i), func() {
+			for !o.prepDone && !o.clientGone {
+				simrt.WaitSteps(2) // enabled only once two more scheduler steps were granted: no busy loop
+			}
+			if i < len(sp.ExtraDelay) {
+				simrt.WaitSteps(sp.ExtraDelay[i])
+			}
+			if o.clientGone || o.U == nil {
+				return
+			}
+			o.ExtraRan[i] = true
+			o.ExtraErrs[i] = o.U.Handshake()
+		})
+	}
 	w.Run()
 	w.Join()
+	if o.U != nil && o.U.HandshakeState.Hello != nil {
+		o.HelloRawEnd = append([]byte(nil), o.U.HandshakeState.Hello.Raw...)
+	}
 	for k, v := range l.AB.Fired {
 		c.Fault(k, v)
 	}
